@@ -34,6 +34,15 @@ CHECKS = {
     "C12": dict(ready=True, category="fault_enumeration", technique="runtime monitoring with injected faults: single-breach mutants of recorded valid (problem, solution) pairs at enumerated sites, classified by the independent replayer O1, judged by the real checker",
         text="For solver outputs O1 finds fully clean, CheckerContext::check must accept; then every mutation class the property names is applied at every applicable site (quick: seeded sample per class and solution), mutants O1 still finds valid are discarded as equivalent, all others must be rejected. Fault enumeration is the right level: the fault classes and sites are finite per solution and are listed in the evidence with accepted/rejected counts per class.",
         note="O1 decides validity; features the checker documents as unsupported (skills, compatibility, order, latest departure) are not injected; limit/capacity/relation breaches are injected on the problem side.", design_ref="DESIGN.md §3 C12"),
+    "C06": dict(ready=True, category="exploration", technique="runtime monitoring: differential monitor - the real eval_job_insertion_in_route on micro-problems built with the public builders against an independent step-by-step simulator (O3), exhaustive over small tours and boundary grids, random above",
+        text="(a) every Success (Concrete(i) for every leg, Any, Last; single and pickup-delivery jobs; static and dynamic demand mixed) is carried out on the spec and simulated by O3; (b) for single-task jobs in exhaustive best mode a Failure is only accepted when O3 finds no feasible (position, place, window) and the returned position must be in O3's feasible set. Deterministic families enumerate every location sequence for n <= 3 with windows at arrival -1/0/+1, shift end = return + {0,1,3}, capacity = peak + {0,1,2}; evidence counts each boundary tag.",
+        note="Metric integer routing; no departure shift (latest = earliest departure); open vehicles have no shift end in vrp-core; activities already in the tour keep their chosen place/window.", design_ref="DESIGN.md §3 C06"),
+    "C14": dict(ready=True, category="exploration", technique="runtime monitoring: lock-step reference-model monitor (Vec/bitset model) compared after every operation, exhaustive over all op sequences of length 4 (quick) / 5 (thorough), random histories above",
+        text="Every operation history over Tour{insert_at, insert_last, remove, remove_activity_at, deep_copy} in four holders x closed/open and Registry/RegistryContext{use, free, get_route, use_route, free_route, next, available, deep_copy, deep_slice} is applied to the real structure and to a small model; all observable accessors are compared after every step, set-aside copies are re-compared to show independence.",
+        note="Operations only inside their documented domain; iteration order never compared; 'at most one per group' for next() not asserted.", design_ref="DESIGN.md §3 C14"),
+    "C20": dict(ready=True, category="exploration", technique="runtime monitoring: differential monitor - quoted InsertionCost components against the realised per-layer fitness change after carrying the insertion out through a real recreate step",
+        text="On finalised micro-states the evaluator's quote for every tour (and the empty tour of every unused vehicle) at every Concrete(p) and Any is compared, layer by layer, with fitness(after) - fitness(before) where 'after' comes from InsertionHeuristic::process with a once-only evaluator; layers unassigned, tours, distance, value in all 48 goal orders; the cost layer only when the independent simulator finds zero waiting before and after.",
+        note="Single-objective layers, metric routing, no left-over empty tours; O3 only names the side at fault.", design_ref="DESIGN.md §3 C20"),
     "C03": dict(ready=True, category="exploration", technique="runtime monitoring: replay oracle recomputing schedule/load/distance/statistics/cost from routing data and visiting order, compared with every reported number",
         text="O1 replays each tour of each recorded solution from (visiting order, first departure): stop arrival/departure within the one-unit output rounding, per-stop load and cumulative distance exactly, tour and overall statistics, cost = fixed + distance*cd + duration*ct, and that the reported place tag belongs to a place explaining the reported interval.",
         note="Integral matrices/durations; fractional profile scale widens the per-leg split tolerance; tours with transit stops/commute only per-stop consistency (not generated).", design_ref="DESIGN.md §3 C03"),
